@@ -1,8 +1,13 @@
 package op
 
 import (
+	"maps"
+	"slices"
+	"strings"
+
 	"github.com/berquerant/crd/errorx"
 	"github.com/berquerant/crd/note"
+	"gopkg.in/yaml.v3"
 )
 
 type Instance struct {
@@ -28,6 +33,32 @@ func (i Instance) Validate() error {
 }
 
 type Meta map[string]string
+
+// MarshalYAML quotes a text that begins with a line break:
+// yaml.v3 drops that line break when it picks the block style on its own.
+func (m Meta) MarshalYAML() (any, error) {
+	var leadingBreak bool
+	for _, v := range m {
+		if strings.HasPrefix(v, "\n") {
+			leadingBreak = true
+		}
+	}
+	if !leadingBreak {
+		return map[string]string(m), nil
+	}
+
+	node := &yaml.Node{Kind: yaml.MappingNode}
+	for _, k := range slices.Sorted(maps.Keys(m)) {
+		var key, value yaml.Node
+		key.SetString(k)
+		value.SetString(m[k])
+		if strings.HasPrefix(m[k], "\n") {
+			value.Style = yaml.DoubleQuotedStyle
+		}
+		node.Content = append(node.Content, &key, &value)
+	}
+	return node, nil
+}
 
 func (m Meta) Get(key string) string {
 	return m[key]
